@@ -508,6 +508,10 @@ fn strip_utf8_bom(s: &str) -> &str {
     }
 }
 
+/// Lists nested more deeply than this are rejected. The code that consumes the expressions
+/// recurses once per nesting level, so the nesting must be bounded to bound the stack usage.
+pub const MAX_LIST_NESTING: usize = 128;
+
 fn parse_with(
     s: &str,
     mut tokens: impl Iterator<Item = Spanned<TokenRes>>,
@@ -519,7 +523,16 @@ fn parse_with(
         match tokens.next() {
             None => break,
             Some(Spanned { t, span }) => match t.map_err(|s| ParseError::new(span.clone(), s))? {
-                Open => stack.push(Spanned::new(vec![], span)),
+                Open => {
+                    // The stack holds a placeholder plus one entry per list that is still open.
+                    if stack.len() > MAX_LIST_NESTING {
+                        return Err(ParseError::new(
+                            span,
+                            format!("Lists are nested more than {MAX_LIST_NESTING} levels deep"),
+                        ));
+                    }
+                    stack.push(Spanned::new(vec![], span))
+                }
                 Close => {
                     let Spanned {
                         t: exprs,
